@@ -78,6 +78,7 @@ CLASSES = [
     ('UReversible', uc.UReversible, 'iterable'),
     ('UGenList', uc.UGenList, 'seq'),
     ('UGenList2', uc.UGenList2, 'seq'),
+    ('UIntList', uc.UIntList, 'seq'),
     ('UGenDict', uc.UGenDict, 'map'),
     ('UGenPlain', uc.UGenPlain, 'plain'),
     ('EColor', uc.EColor, 'enum'),
